@@ -2138,3 +2138,129 @@ Proof.
   fold decode_item. rewrite Td. reflexivity.
 Qed.
 End ResultsProofs.
+
+(* ------------------------------------------------------------------------------------------ *)
+(* the generic model code, end to end                                                          *)
+(* ------------------------------------------------------------------------------------------ *)
+Local Open Scope string_scope.
+Section GenericProofs.
+Variable G : engine.
+Hypothesis GOK : engine_ok G.
+
+(* from_dict looks up nine keys and nothing else: extra items after them do not matter *)
+Lemma model_from_dict_ext d e :
+  (forall k, In k ["initial_individual_estimates"; "dependent_variables"; "observation_transformation"; "parameters";
+                   "random_variables"; "statements"; "execution_steps"; "datainfo"; "value_type"] -> dget k d <> None) ->
+  model_from_dict G (PDict (d ++ e)) = model_from_dict G (PDict d).
+Proof.
+  intros K. unfold model_from_dict. cbn [as_dict].
+  assert (forall k, dget k d <> None -> dget k (d ++ e)%list = dget k d) as A.
+  { intros k. clear K. induction d as [|[[k'|z] v] tl IH]; cbn; intros N; [contradiction| |apply IH; exact N].
+    destruct (String.eqb k k'); [reflexivity | apply IH; exact N]. }
+  rewrite !A by (apply K; cbn; tauto). reflexivity.
+Qed.
+
+Lemma generic_convert_keeps G' (m : model G') :
+  m_statements G' (generic_convert G' m) = m_statements G' m /\ m_iie G' (generic_convert G' m) = m_iie G' m /\
+  m_steps G' (generic_convert G' m) = m_steps G' m /\ m_datainfo G' (generic_convert G' m) = m_datainfo G' m.
+Proof. destruct m; repeat split; reflexivity. Qed.
+
+Lemma generic_image (dumps : pyv -> string) (loads : string -> option pyv) version m :
+  loads (dumps (generic_code_dict G version (generic_convert G m))) =
+    Some (normalise (generic_code_dict G version (generic_convert G m))) ->
+  forallb (stmt_ok G) (m_statements G m) = true -> depvars_ok G m ->
+  (forall x, m_iie G m = Some x -> normalise x <> PNone) ->
+  generic_roundtrip G dumps loads version m = Some (model_json G (generic_convert G m)).
+Proof.
+  intros L W D I. unfold generic_roundtrip, generic_parse, generic_code. rewrite L.
+  pose proof (model_json_lemma G GOK (generic_convert G m)) as J.
+  destruct m as [nm de ps rv st es di vt dv ot ie]. cbn [m_statements m_iie] in *.
+  specialize (J W D I). unfold generic_code_dict, generic_convert in *.
+  cbn [m_name m_description m_parameters m_rvs m_statements m_steps m_datainfo m_depvars m_obstrans m_iie model_to_dict] in *.
+  cbn [normalise] in *.
+  rewrite map_app.
+  rewrite model_from_dict_ext; [exact J|].
+  intros k Hk. cbn in Hk. cbn.
+  repeat (destruct Hk as [<-|Hk]; [cbn; discriminate|]). contradiction.
+Qed.
+End GenericProofs.
+
+Lemma model_eq_strip G (m m' : model G) : model_eq G (strip G m) m' = model_eq G m m'.
+Proof. destruct m as [nm de ps rv st es [cols p se mt] vt dv ot ie]. reflexivity. Qed.
+
+Lemma generic_convert_prediction G (m : model G) : m_value_type G m = "PREDICTION" -> generic_convert G m = m.
+Proof. destruct m; cbn; intros ->; reflexivity. Qed.
+
+Lemma generic_code_roundtrip_lemma G (GOK : engine_ok G) (dumps : pyv -> string) (loads : string -> option pyv) version m :
+  loads (dumps (generic_code_dict G version (generic_convert G m))) =
+    Some (normalise (generic_code_dict G version (generic_convert G m))) ->
+  forallb (stmt_ok G) (m_statements G m) = true -> depvars_ok G m ->
+  forallb (step_json_ok G) (m_steps G m) = true ->
+  forallb (column_json_ok G) (di_columns G (m_datainfo G m)) = true ->
+  (forall x, m_iie G m = Some x -> is_json x = true /\ x <> PNone) ->
+  m_value_type G m = "PREDICTION" ->
+  generic_roundtrip G dumps loads version m = Some (strip G m).
+Proof.
+  intros L W D B C I V.
+  rewrite (generic_image G GOK dumps loads version m L W D).
+  - rewrite (generic_convert_prediction G m V). f_equal. apply model_json_stable; try assumption. intros x Hx. apply (I x Hx).
+  - intros x Hx. destruct (I x Hx) as [J N]. rewrite (normalise_fix_lemma x J). exact N.
+Qed.
+
+(* ------------------------------------------------------------------------------------------ *)
+(* dataset bytes of frames of different length                                                 *)
+(* ------------------------------------------------------------------------------------------ *)
+Lemma split_nth {A} (d : A) : forall (l : list A) n, n < List.length l -> l = (firstn n l ++ nth n l d :: skipn (S n) l)%list.
+Proof.
+  induction l as [|x l IH]; intros n L; cbn in L; [lia|].
+  destruct n as [|n]; [reflexivity|]. cbn. f_equal. apply IH. lia.
+Qed.
+
+Section DatasetLength.
+Variable rowhash : list cell -> string.
+Variable repr_names : list string -> string.
+Variable repr_index : index_view -> string.
+Variable repr_dtypes : list string -> string.
+Hypothesis rowhash_width : forall r, String.length (rowhash r) = 8.
+
+Lemma cat_all_app (a b : list string) : cat_all (a ++ b) = cat_all a ++ cat_all b.
+Proof. induction a as [|x a IH]; cbn; [reflexivity|]. fold (cat_all (a ++ b)) (cat_all a). rewrite IH, str_app_assoc. reflexivity. Qed.
+
+Lemma cat_rows_length (l : list (list cell)) : String.length (cat_all (map rowhash l)) = 8 * List.length l.
+Proof.
+  induction l as [|r l IH]; [reflexivity|]. cbn [map cat_all fold_right List.length]. fold (cat_all (map rowhash l)).
+  rewrite append_length, rowhash_width, IH. lia.
+Qed.
+
+(* the shorter frame's text starts where the longer frame still has a row hash: the two streams
+   differ unless that row hash reads like the beginning of the column-name text *)
+Lemma ds_bytes_length_sep f g :
+  List.length (f_rows f) < List.length (f_rows g) ->
+  (forall x y, rowhash (nth (List.length (f_rows f)) (f_rows g) []) ++ x <> repr_names (f_columns f) ++ y) ->
+  ds_bytes rowhash repr_names repr_index repr_dtypes f <> ds_bytes rowhash repr_names repr_index repr_dtypes g.
+Proof.
+  intros L N E. unfold ds_bytes in E. set (n := List.length (f_rows f)) in *.
+  pose proof (split_nth [] (f_rows g) n L) as S.
+  rewrite S in E. rewrite map_app, cat_all_app in E. cbn [map cat_all fold_right] in E.
+  fold (cat_all (map rowhash (skipn (Datatypes.S n) (f_rows g)))) in E.
+  rewrite !str_app_assoc in E.
+  apply append_eq_len in E.
+  - destruct E as [_ E]. symmetry in E. exact (N _ _ E).
+  - rewrite !cat_rows_length. rewrite firstn_length. unfold n. lia.
+Qed.
+End DatasetLength.
+
+Lemma key_separates_frames_length G dumps digest (H : string -> digest)
+      (rowhash : list cell -> string) (repr_names : list string -> string) (repr_index : index_view -> string)
+      (repr_dtypes : list string -> string) (f g : frame) (m : model G) :
+  (forall r, String.length (rowhash r) = 8) ->
+  let bytes := ds_bytes rowhash repr_names repr_index repr_dtypes in
+  let d := model_encode G (blank G m) in
+  List.length (f_rows f) < List.length (f_rows g) ->
+  (forall x y, rowhash (nth (List.length (f_rows f)) (f_rows g) []) ++ x <> repr_names (f_columns f) ++ y) ->
+  H_sep H (bytes f ++ dumps d) (bytes g ++ dumps d) ->
+  key G dumps digest H (bytes f) m <> key G dumps digest H (bytes g) m.
+Proof.
+  intros W bytes d L N HS. apply key_separates_dataset; [exact HS|].
+  apply (ds_bytes_length_sep rowhash repr_names repr_index repr_dtypes W f g L N).
+Qed.
